@@ -840,6 +840,169 @@ def degenerate_check(case):
     return bad, "OPTIMAL"
 
 
+# ----------------------------------------------------------------------------- the operator alphabet as constraints
+
+
+def alphabet_shapes():
+    """name -> builder(x, y, v) of a left-hand side over the whole operator alphabet, reflected forms
+    included (constant on the left of - / **), products, quotients, functions and vector nodes.
+    x ∈ [1, 10], y ∈ [0.5, 4], v ∈ [0.5, 3]³: every shape is finite on the box."""
+    from optyx.core import functions as F
+    from optyx.core.vectors import norm
+
+    c3 = np.array([1.0, -2.0, 0.5])
+    return {
+        "x": lambda x, y, v: x, "2*x": lambda x, y, v: 2.0 * x, "x*2": lambda x, y, v: x * 2.0,
+        "x+y": lambda x, y, v: x + y, "x-y": lambda x, y, v: x - y, "-x": lambda x, y, v: -x,
+        "3-x": lambda x, y, v: 3.0 - x, "x-3": lambda x, y, v: x - 3.0, "3+x": lambda x, y, v: 3.0 + x,
+        "x/2": lambda x, y, v: x / 2.0, "1/x": lambda x, y, v: 1.0 / x, "2/(x+y)": lambda x, y, v: 2.0 / (x + y),
+        "(x+y)/4": lambda x, y, v: (x + y) / 4.0, "x/y": lambda x, y, v: x / y, "y/x": lambda x, y, v: y / x,
+        "1/x+y": lambda x, y, v: 1.0 / x + y, "x-1/y": lambda x, y, v: x - 1.0 / y, "3*(1/x)": lambda x, y, v: 3.0 * (1.0 / x),
+        "(1/x)/2": lambda x, y, v: (1.0 / x) / 2.0, "-(1/x)": lambda x, y, v: -(1.0 / x),
+        "x*y": lambda x, y, v: x * y, "x*x": lambda x, y, v: x * x, "x*(y+1)": lambda x, y, v: x * (y + 1.0),
+        "x**2": lambda x, y, v: x ** 2, "x**1": lambda x, y, v: x ** 1, "x**0.5": lambda x, y, v: x ** 0.5,
+        "x**-1": lambda x, y, v: x ** -1, "2**x": lambda x, y, v: 2.0 ** x, "0.5**y": lambda x, y, v: 0.5 ** y,
+        "x**y": lambda x, y, v: x ** y, "(x+y)**2": lambda x, y, v: (x + y) ** 2,
+        "exp(y)": lambda x, y, v: F.exp(y), "log(x)": lambda x, y, v: F.log(x), "sqrt(x)": lambda x, y, v: F.sqrt(x),
+        "sin(x)": lambda x, y, v: F.sin(x), "abs(x-3)": lambda x, y, v: F.abs_(x - 3.0), "tanh(y)": lambda x, y, v: F.tanh(y),
+        "x+log(y)": lambda x, y, v: x + F.log(y), "2*exp(-y)": lambda x, y, v: 2.0 * F.exp(-y),
+        "c@v": lambda x, y, v: c3 @ v, "v.sum()": lambda x, y, v: v.sum(), "v.dot(v)": lambda x, y, v: v.dot(v),
+        "norm(v)": lambda x, y, v: norm(v), "(v**2).sum()": lambda x, y, v: (v ** 2).sum(),
+        "(1/v).sum()": lambda x, y, v: (1.0 / v).sum(), "c@(1/v)": lambda x, y, v: c3 @ (1.0 / v),
+        "(3-v).sum()": lambda x, y, v: (3.0 - v).sum(), "c@(v*v)": lambda x, y, v: c3 @ (v * v),
+        "v[0]/v[1]": lambda x, y, v: v[0] / v[1], "x+1/v[2]": lambda x, y, v: x + 1.0 / v[2],
+        "c@v+1/x": lambda x, y, v: c3 @ v + 1.0 / x,
+    }
+
+
+def alphabet_problem(shape, sense, rhs, objsense="min"):
+    from optyx import Problem, Variable, VectorVariable
+
+    x = Variable("x", lb=1.0, ub=10.0)
+    y = Variable("y", lb=0.5, ub=4.0)
+    v = VectorVariable("v", 3, lb=0.5, ub=3.0)
+    lhs = alphabet_shapes()[shape](x, y, v)
+    obj = x + 2.0 * y + v.sum()
+    P = Problem()
+    P.minimize(obj) if objsense == "min" else P.maximize(obj)
+    P.subject_to(lhs <= rhs if sense == "<=" else lhs >= rhs if sense == ">=" else lhs.eq(rhs))
+    return P, lhs, [x, y] + list(v)
+
+
+def shape_range(shape):
+    """(min, max) of the shape over a grid of the box — by the independent reference interpreter"""
+    import itertools
+
+    import oracle
+
+    P, lhs, vs = alphabet_problem(shape, "<=", 0.0)
+    lo, hi = math.inf, -math.inf
+    grid = {"x": [1.0, 2.0, 3.0, 5.5, 10.0], "y": [0.5, 1.0, 2.0, 4.0], "v": [0.5, 1.5, 3.0]}
+    for xv, yv, a, b, c in itertools.product(grid["x"], grid["y"], grid["v"], grid["v"], grid["v"]):
+        vals = {"x": xv, "y": yv, "v[0]": a, "v[1]": b, "v[2]": c}
+        try:
+            g = float(oracle.prim(oracle.ref_eval(lhs, vals)))
+        except Exception:  # noqa: BLE001
+            continue
+        lo, hi = min(lo, g), max(hi, g)
+    return lo, hi
+
+
+def independent_feasibility(lhs, sense, rhs, variables, values, tol=None, slack=1e-7):
+    """the constraint re-evaluated by harness/oracle.py (not by optyx) at the returned values, and the
+    bounds; None = feasible within the stated tolerance"""
+    import oracle
+
+    atol = tol if tol is not None else 1e-6
+    for v in variables:
+        xv = values.get(v.name)
+        if xv is None:
+            return {"what": f"no value for variable {v.name}"}
+        for bound, sign in ((v.lb, 1.0), (v.ub, -1.0)):
+            if bound is not None and math.isfinite(bound) and sign * (bound - xv) > atol + RTOL * max(1.0, abs(bound)) + slack:
+                return {"what": f"bound of {v.name} violated", "value": xv, "bound": bound}
+    try:
+        g = float(oracle.prim(oracle.ref_eval(lhs, dict(values)))) - rhs
+    except Exception as e:  # noqa: BLE001
+        return {"what": f"constraint undefined at the returned point ({type(e).__name__}: {e})"[:160]}
+    viol = max(0.0, g) if sense == "<=" else max(0.0, -g) if sense == ">=" else abs(g)
+    allowed = atol + RTOL * max(1.0, abs(g)) + slack
+    if not (viol <= allowed):
+        return {"what": f"constraint (lhs {sense} {rhs}) violated at the returned point", "lhs_minus_rhs": g,
+                "violation": viol, "allowed": allowed}
+    return None
+
+
+def alphabet_check(case):
+    P, lhs, vs = alphabet_problem(case["shape"], case["sense"], case["rhs"], case["objsense"])
+    with warnings.catch_warnings(), np.errstate(all="ignore"):
+        warnings.simplefilter("ignore")
+        try:
+            sol = P.solve(method=case["method"])
+        except Exception as e:  # noqa: BLE001 - refusing to solve is fine for C06
+            return None, "raise:" + type(e).__name__
+    if sol.status.name != "OPTIMAL":
+        return None, sol.status.name
+    bad = independent_feasibility(lhs, case["sense"], case["rhs"], vs, sol.values, None,
+                                  slack=1e-7 if case["method"] in LP_METHODS + ["auto"] else 1e-9)
+    if bad is None:
+        bad = feasibility_report(P, sol.values, None, slack=1e-7)
+    if bad is not None:
+        bad["values"] = dict(sol.values)
+    return bad, "OPTIMAL"
+
+
+_RANGES = {}
+
+
+def run_operator_alphabet(rep, rng, thorough):
+    """every shape × sense × rhs ∈ {slack, binding, infeasible} × method.  The explicit LP methods are run on
+    everything (they answer at once — NonLinearError — unless the shape is, or is taken to be, linear);
+    "auto" and the NLP methods on a rotating part in the quick tier."""
+    shapes = list(alphabet_shapes())
+    i = 0
+    for shape in shapes:
+        if shape not in _RANGES:
+            _RANGES[shape] = shape_range(shape)
+        lo, hi = _RANGES[shape]
+        if not (math.isfinite(lo) and math.isfinite(hi)):
+            rep.skipped["alphabet:no-range"] = rep.skipped.get("alphabet:no-range", 0) + 1
+            continue
+        mid = round((lo + hi) / 2 * 8) / 8
+        for sense in ("<=", ">=", "=="):
+            rhss = {"<=": [("slack", hi + 1.0), ("binding", mid), ("infeasible", lo - 1.0)],
+                    ">=": [("slack", lo - 1.0), ("binding", mid), ("infeasible", hi + 1.0)],
+                    "==": [("binding", mid), ("infeasible", hi + 1.0), ("infeasible", lo - 1.0)]}[sense]
+            for kind, rhs in rhss:
+                for method in ["auto"] + LP_METHODS + ["SLSQP", "trust-constr", "COBYLA"]:
+                    i += 1
+                    case = {"shape": shape, "sense": sense, "rhs": rhs, "method": method,
+                            "objsense": "min" if (i // 9) % 2 == 0 else "max"}
+                    if method not in LP_METHODS:
+                        # NLP solves of infeasible problems run to the iteration limit (≈1 s each): the time goes
+                        # where a wrong OPTIMAL can come from cheaply.  "auto" is always run when optyx itself
+                        # routes the problem to linprog (that is where a broken classification shows).
+                        lp_routed = method == "auto" and alphabet_problem(shape, sense, rhs)[0]._is_linear_problem()
+                        if not lp_routed:
+                            if kind == "infeasible" and (not thorough or (i // 9) % 4 != 0):
+                                continue
+                            if not thorough and method == "auto" and (i // 9) % 3 != 0:
+                                continue
+                            if not thorough and method in ("SLSQP", "trust-constr") and (i // 9) % 12 != 1:
+                                continue
+                            if not thorough and method == "COBYLA":
+                                continue
+                    bad, status = alphabet_check(case)
+                    rep.evaluations += 1
+                    tag = f"alphabet:{kind}:{'lp' if method in LP_METHODS else method}:{status}"
+                    rep.histogram[tag] = rep.histogram.get(tag, 0) + 1
+                    if status == "OPTIMAL":
+                        rep.nontrivial.add(hash(("alpha", shape, sense, rhs, method)))
+                    if bad is not None:
+                        bad.update({"kind_of_case": "alphabet", "case": case})
+                        rep.oracle_failures.append(bad)
+
+
 # ----------------------------------------------------------------------------- entry points
 
 
@@ -922,6 +1085,7 @@ def run(ctx) -> core.Report:
                                         "kind_of_case": "lpstub", "case": meta})
     rep.exhaustive = True
     run_degenerate_rows(rep, thorough)
+    run_operator_alphabet(rep, rng, thorough)
     run_real_solves(rep, rng, 1500 if thorough else 150, check_feasible)
     return rep
 
@@ -936,6 +1100,9 @@ def search(ctx, rep):
     if r2.oracle_failures:
         return r2.oracle_failures[0]
     run_degenerate_rows(r2, True)
+    if r2.oracle_failures:
+        return r2.oracle_failures[0]
+    run_operator_alphabet(r2, rng, False)
     if r2.oracle_failures:
         return r2.oracle_failures[0]
     run_real_solves(r2, rng, 350, check_feasible)   # bounded: the whole search stays under ~2 min
@@ -964,6 +1131,10 @@ def replay(payload) -> bool:
             return True
         bad = feasibility_report(P, sol.values, c["tol"])
         print("feasibility:", bad)
+        return bad is None
+    if f.get("kind_of_case") == "alphabet":
+        bad, status = alphabet_check(f["case"])
+        print("status:", status, "feasibility:", bad)
         return bad is None
     if f.get("kind_of_case") == "degenerate":
         bad, status = degenerate_check(f["case"])
